@@ -179,7 +179,7 @@ def run(rep, tier, seed):
     for k in range(n_sets):
         add("d2s", {"op": "types", "mode": "sample", "size": set_size, "seed": seed * 100003 + k, "direct_triples": 4000})
     # ---- C. coercion: values x targets by direct calls ----
-    n_values = 3 * DEPTH1_TYPES + 10 + 16  # the driver reports its pool size; checked below
+    n_values = 3 * DEPTH1_TYPES + 10 + 24  # the driver reports its pool size; checked below
     for lo, hi in _split(n_values, 48):
         add("co", {"op": "coerce", "mode": "universe", "rows": [lo, hi]})
     # ---- D. coercion through FEEL invocations ----
